@@ -31,9 +31,9 @@ open FileD FileD.DoIf FileD.MatchFields
 
 /-- field op on a scalar / null / absent value `d` -/
 def specFieldVal (o : Oracle) (f : FieldOp) (d : Option Bytes) : Bool :=
-  let low : Bytes → Bytes := if f.cs then id else o.lower
+  let low : Bytes → Bytes := lowIf f.cs o.lower
   match f.op with
-  | .equal => f.values.any (fun v => v.map low == d.map low)
+  | .equal => f.values.any (fun v => decide (v.map low = d.map low))
   | .contains => f.values.any (fun v => containsB (low (bytesOf d)) (bytesOf (v.map low)))
   | .containsAny =>
     (match f.values with
